@@ -199,10 +199,7 @@ func c19ModelSort(r *c19Model, less func(a, b string) bool) {
 // representation invariant (order = n pairwise distinct keys, records = exactly
 // those keys). One inductive step covers histories of any length.
 func VerifC19Step() {
-	maxN := 3
-	if v.Tier() > 0 {
-		maxN = 4
-	}
+	maxN := 4 // the whole alphabet: every state over {a,b,c,d}
 	n := v.Choose(maxN + 1)
 	m := New[string, int]()
 	ref := &c19Model{}
@@ -226,9 +223,9 @@ func VerifC19Step() {
 // VerifC19History: bounded histories from New(), compared with the model after
 // every step (guards against the invariant of VerifC19Step being too weak or too strong).
 func VerifC19History() {
-	steps := 3
+	steps := 4
 	if v.Tier() > 0 {
-		steps = 4
+		steps = 5
 	}
 	m := New[string, int]()
 	ref := &c19Model{}
